@@ -567,6 +567,16 @@ def xml_mutants(rng, doc, n):
     return out
 
 
+ODD_KEYS = [0, 1, 2, -1, 7, 100, 10 ** 20, True, False, None, 1.5, float('inf'), b'x', (1, 2), ()]
+
+
+def _at(body, path):
+    cur = body
+    for k in path:
+        cur = cur[k]
+    return cur
+
+
 def dict_mutants(rng, codec, doc, n):
     from checks.c04 import positions, set_path, SUBST
     out = []
@@ -576,8 +586,30 @@ def dict_mutants(rng, codec, doc, n):
         body = doc
     pos = list(positions(body))
     for _ in range(n):
-        op = rng.choice(('kind', 'kind', 'hostile', 'hostile', 'delete', 'unknown', 'dupkey', 'methodkey', 'toplevel', 'hostile_name', 'hostile_name'))
+        op = rng.choice(('kind', 'kind', 'hostile', 'hostile', 'delete', 'unknown', 'dupkey', 'methodkey', 'toplevel', 'hostile_name', 'hostile_name', 'odd_key',
+                         'odd_key'))
         try:
+            if op == 'odd_key':
+                # a mapping key that is not text where the name of a member, of a message part or of the method is expected (YAML and MessagePack can
+                # say that; JSON writes them as text, which gives names like "0", "true", "null")
+                k = rng.choice(ODD_KEYS)
+                how = rng.choice(('add', 'add', 'rename', 'method'))
+                if how == 'method' and mkey is not None:
+                    out.append(('mut:odd_key_method', codec.dumps({k: body})))
+                    continue
+                dicts = [q for q in [()] + [tuple(q) for q in pos] if isinstance(_at(body, q), dict)]
+                if not dicts:
+                    continue
+                q = rng.choice(dicts)
+                m = copy.deepcopy(body)
+                cur = _at(m, q)
+                if how == 'rename' and cur:
+                    old = rng.choice(sorted(cur, key=repr))
+                    cur[k] = cur.pop(old)
+                else:
+                    cur[k] = rng.choice(SUBST)[1]
+                out.append(('mut:odd_key_' + ('member' if q else 'part'), codec.dumps({mkey: m} if mkey is not None else m)))
+                continue
             if op == 'hostile_name':
                 nm = rng.choice(HOSTILE_NAMES)
                 if mkey is not None and rng.random() < .6:
